@@ -28,7 +28,7 @@ Open Scope Z_scope.
 Definition zb (b : bool) : Z := if b then 1 else 0.
 Definition zo (o : option Z) : Z := match o with None => -1 | Some z => z end.
 Definition rcode (r : cres) : Z :=
-  match r with C0 => 0 | CISCONN => 1 | CINPROGRESS => 2 | CALREADY => 3 | CREFUSED => 4 | CINVAL => 5 | COTHER => 6 end.
+  match r with C0 => 0 | CISCONN => 1 | CINPROGRESS => 2 | CALREADY => 3 | CREFUSED => 4 | CINVAL => 5 | COTHER => 6 | CRAISE => 7 | CNAMERR => 8 end.
 Definition enc_obs (c : client) : list Z :=
   [zb (accepted c); zb (cutoff c); zb (opened c);
    match cs c with None => -1 | Some s => Z.of_nat s end;
@@ -80,8 +80,8 @@ def listening_table(n0, lag, nsock, rng=None, down=None):
 
 
 def bound(tmo, dmin, lag):
-    """the bound of theorem reconnect_bounded: ceil(tmo/dmin) + lag + 2 service calls"""
-    return -(-tmo // dmin) + lag + 2
+    """the bound of theorem reconnect_bounded: ceil(tmo/dmin) + lag + 1 service calls (tight)"""
+    return -(-tmo // dmin) + lag + 1
 
 
 def liveness_case(drv, tmo, dmin, dmax, lag, pre_ticks, table, dflt, rng):
@@ -135,6 +135,7 @@ def run(ctx):
         ([["CINPROGRESS", "C0"]], "C0"),
         ([["CREFUSED"], ["CINPROGRESS", "CINPROGRESS", "C0"]], "CISCONN"),
         ([["CINPROGRESS", "CALREADY", "CALREADY", "CALREADY"], ["CINPROGRESS", "C0"]], "C0"),
+        ([["CRAISE", "CNAMERR", "C0"], ["CINVAL"], ["COTHER", "CISCONN"]], "CINPROGRESS"),
         ([["C0"], ["CINVAL"], ["COTHER", "CISCONN"]], "CINPROGRESS"),
         ([], "CREFUSED"),
         ([["CINPROGRESS"], ["CINPROGRESS"]], "COTHER"),
@@ -165,13 +166,10 @@ def run(ctx):
         dmin = rng.randint(1, dmax)
         tmo = (lag + 1) * dmax + rng.randint(1, 6)
         # prefix: server down (arbitrary pacing, cuts allowed)
-        # (the bare client does not handle loss of an established connection: no cuts for it,
-        #  theorem bare_client_ignores_cutoff)
-        pre = [(rng.choice([0, 1, 2, 5]), drv != "Bare" and rng.random() < 0.25)
-               for _ in range(rng.randint(0, 12))]
+        pre = [(rng.choice([0, 1, 2, 5]), rng.random() < 0.25) for _ in range(rng.randint(0, 12))]
         # run the prefix alone to learn how many sockets exist when the server comes up
         dtab = [rng.choice(downs) for _ in range(40)]
-        if drv != "Bare" and rng.random() < 0.3:   # start connected then get cut: first socket connects at once
+        if rng.random() < 0.3:   # start connected then get cut: first socket connects at once
             dtab[0] = ["C0"]
             pre = pre + [(1, True)]
         _, pinfo = harness.run_impl(drv, True, tmo, dtab, "CINPROGRESS", pre)
@@ -196,7 +194,14 @@ def run(ctx):
         except Exception as ex:  # supporting exploration only; never decides the verdict
             ctx.extra["loopback_error"] = repr(ex)
 
+    def bare_cut(m):
+        """the schedule exercises the one known candidate: bare reconnectable Client, connection cut"""
+        return m["drv"] == "Bare" and m["rc"] and any(c for _, c in m["ticks"])
+
     def search():
+        # finding key: 'bare-client-cutoff' only when EVERY disagreement of this run is a bare
+        # reconnectable client losing an established connection; anything else is 'reconnect'
+        only_bare = bool(bad) and all(bare_cut(metas[i]) for i in bad)
         best = None
         for m in metas:
             why = None
@@ -209,12 +214,14 @@ def run(ctx):
                 why = nonreconn_violation(m)
                 thm = "C27.Props.non_reconnectable_never_reopens"
             if why:
-                cand = {"key": "reconnect", "driver": m["drv"], "reconnectable": m["rc"], "timeout_ticks": m["tmo"],
+                key = "bare-client-cutoff" if (only_bare and bare_cut(m)) else "reconnect"
+                cand = {"key": key, "driver": m["drv"], "reconnectable": m["rc"], "timeout_ticks": m["tmo"],
                         "oracle_table": m["table"], "oracle_default": m["dflt"], "ticks": m["ticks"],
                         "observed": info, "why": why, "contradicts": thm}
-                if best is None or len(m["ticks"]) < len(best["ticks"]):
-                    best = cand
-        return best
+                rank = (key != "reconnect", len(m["ticks"]))
+                if best is None or rank < best[0]:
+                    best = (rank, cand)
+        return best[1] if best else None
 
     ctx.settle(search)
 
